@@ -30,6 +30,11 @@ __all__ = [
 _named_colors_lowercase = {k.lower(): v.lstrip("#") for k, v in NAMED_COLORS.items()}
 
 
+def _is_hex(text: str) -> bool:
+    "True when `text` consists of hexadecimal digits only."
+    return all(c in "0123456789abcdefABCDEF" for c in text)
+
+
 def parse_color(text: str) -> str:
     """
     Parse/validate color format.
@@ -62,11 +67,11 @@ def parse_color(text: str) -> str:
             return ANSI_COLOR_NAMES_ALIASES[col]
 
         # 6 digit hex color.
-        elif len(col) == 6:
+        elif len(col) == 6 and _is_hex(col):
             return col
 
         # 3 digit hex color.
-        elif len(col) == 3:
+        elif len(col) == 3 and _is_hex(col):
             return col[0] * 2 + col[1] * 2 + col[2] * 2
 
     # Default.
